@@ -480,27 +480,77 @@ func runC09(c *Ctx) {
 				flows = true
 			}
 		}
-		// (b) every call of statusForGraphQLResponse is guarded by ct == "application/graphql-response+json", statusFor by !=
+		// (b) every use of statusForGraphQLResponse — a call, or the function value selected for a later indirect call — is
+		// guarded by ct == "application/graphql-response+json", every use of statusFor by !=
 		guardOK, n := true, 0
-		for _, call := range an.CallsIn(do, func(_ ssa.CallInstruction, ci an.CalleeInfo) bool {
-			return strings.HasPrefix(ci.FullName(), pkgTransport+".statusFor")
-		}) {
-			n++
-			want := token.NEQ
-			if strings.HasSuffix(an.CalleeOf(call).FullName(), "GraphQLResponse") {
-				want = token.EQL
-			}
-			found := false
-			for _, f := range an.Facts(call) {
+		guarded := func(fs []an.Fact, want token.Token) bool {
+			for _, f := range fs {
 				for _, pr := range [][2]ssa.Value{{f.X, f.Y}, {f.Y, f.X}} {
+					if pr[0] == nil || pr[1] == nil {
+						continue
+					}
 					if s, ok := an.ConstString(pr[1]); ok && s == "application/graphql-response+json" && an.SameVar(pr[0], ct) && f.Op == want {
-						found = true
+						return true
 					}
 				}
 			}
-			guardOK = guardOK && found
+			return false
 		}
-		c.R.Check(flows && guardOK && n == 2, key, c.ipos(ct), "negotiated content type flows to writeHeaders and selects the status table", sprintf("negotiated content type: flows to writeHeaders=%v, selects status table=%v (%d status helper calls)", flows, guardOK, n))
+		wantFor := func(f *ssa.Function) (token.Token, bool) {
+			if f == nil || f.Pkg == nil || f.Pkg.Pkg.Path() != pkgTransport || !strings.HasPrefix(f.Name(), "statusFor") {
+				return 0, false
+			}
+			if strings.HasSuffix(f.Name(), "GraphQLResponse") {
+				return token.EQL, true
+			}
+			return token.NEQ, true
+		}
+		for _, b := range do.Blocks {
+			for _, in := range b.Instrs {
+				call, isCall := in.(*ssa.Call)
+				if !isCall {
+					continue
+				}
+				if want, ok := wantFor(call.Call.StaticCallee()); ok {
+					n++
+					guardOK = guardOK && guarded(an.Facts(call), want)
+					continue
+				}
+				if call.Call.IsInvoke() || call.Call.StaticCallee() != nil {
+					continue
+				}
+				// indirect call: the callee value is selected among the status tables
+				for _, ve := range valueEdges(call.Call.Value, call.Block()) {
+					for _, d := range an.Defs(ve.val) {
+						f, isF := d.(*ssa.Function)
+						want, ok := wantFor(f)
+						if !isF || !ok {
+							continue
+						}
+						n++
+						fs := factsOn(ve)
+						if ve.from == call.Block() && ve.edgeIf == nil {
+							fs = an.Facts(call)
+						}
+						// a local variable assigned in a guarded block: use the guards of the store
+						if ld, isLd := ve.val.(*ssa.UnOp); isLd && an.IsLocalCell(ld.X) {
+							okAll := true
+							for _, st := range an.CellStores(ld.X) {
+								if sf, isSF := an.Strip(st.Val).(*ssa.Function); isSF && sf == f {
+									if !guarded(an.Facts(st), want) && !(want == token.NEQ && overwrittenUnder(st, ld.X, guarded)) {
+										okAll = false
+									}
+								}
+							}
+							guardOK = guardOK && okAll
+							continue
+						}
+						guardOK = guardOK && guarded(fs, want)
+					}
+				}
+			}
+		}
+		c.R.Check(flows && guardOK && n >= 2, key, c.ipos(ct), "negotiated content type flows to writeHeaders and selects the status table", sprintf("negotiated content type: flows to writeHeaders=%v, selects status table=%v (%d status helper calls)", flows, guardOK, n))
 	}
 }
 
@@ -803,6 +853,11 @@ type valEdge struct {
 
 // returnValueEdges expands the idx-th result of r through phi nodes into (value, predecessor block) pairs.
 func returnValueEdges(r *ssa.Return, idx int) []valEdge {
+	return valueEdges(r.Results[idx], r.Block())
+}
+
+// valueEdges expands v (as seen in block at) through phi nodes into (value, predecessor block, branch taken) triples.
+func valueEdges(v0 ssa.Value, at *ssa.BasicBlock) []valEdge {
 	var out []valEdge
 	seen := map[ssa.Value]bool{}
 	var walk func(v ssa.Value, from *ssa.BasicBlock, eg *an.Guard)
@@ -823,6 +878,32 @@ func returnValueEdges(r *ssa.Return, idx int) []valEdge {
 		}
 		out = append(out, valEdge{v, from, eg})
 	}
-	walk(r.Results[idx], r.Block(), nil)
+	walk(v0, at, nil)
 	return out
+}
+
+// factsOn: the facts that hold when a value edge is taken.
+func factsOn(ve valEdge) []an.Fact {
+	var fs []an.Fact
+	if ve.from != nil {
+		for _, g := range an.BlockGuards(ve.from) {
+			fs = append(fs, an.FactOf(g))
+		}
+	}
+	if ve.edgeIf != nil {
+		fs = append(fs, an.FactOf(*ve.edgeIf))
+	}
+	return fs
+}
+
+
+// overwrittenUnder: the default stored by st into cell is replaced by another store on the edge ct == graphql-response+json
+// (`f := statusFor; if ct == … { f = statusForGraphQLResponse }`): the default then only survives on the != edge.
+func overwrittenUnder(st *ssa.Store, cell ssa.Value, guarded func([]an.Fact, token.Token) bool) bool {
+	for _, other := range an.CellStores(cell) {
+		if other != st && an.Before(st, other) && guarded(an.Facts(other), token.EQL) {
+			return true
+		}
+	}
+	return false
 }
